@@ -122,3 +122,58 @@ Theorem failed_start_leaves_unstarted :
     (find_a i (sts s') = Some StPending ->
      exists s1, step s' (StAtomic i) = Some s1 /\ ph s1 = Running /\ serve s1 = SInit).
 Proof. exact failed_start_unstarted. Qed.
+
+(* ---- the same Server value started again after Shutdown (start / Shutdown /
+   start / Shutdown ...).  [epoch_over s]: the serve call has returned after a
+   Shutdown and every Shutdown and start call has returned; [restart s] is the
+   initial state (Server.init re-creates srv.shutdown and srv.conns, the
+   WaitGroup is local to the serve call); [reachable_r] allows any number of
+   restarts, [run_lives] runs a history of lives. *)
+
+(* when the server can be started again nothing of the previous life remains:
+   srv.shutdown closed, listener closed, every worker finished (connections
+   closed and deregistered), WaitGroup 0, every Shutdown call returned *)
+Theorem restart_only_when_nothing_remains :
+  forall (m : mode) (s : state),
+    reachable m s -> epoch_over s = true ->
+    ph s = Stopping /\ shut s = true /\ lclosed s = true /\
+    Forall (fun w => w_pc w = CDone) (workers s) /\ wg s = 0 /\
+    (forall j p, In (j, p) (sds s) -> exists r, p = SdDone r).
+Proof. exact epoch_over_quiescent. Qed.
+
+(* every state reached with any number of restarts is a reachable state of one
+   life, so every theorem above holds in every life of a restarted server *)
+Theorem restarts_preserve_reachability :
+  forall (m : mode) (s : state), reachable_r m s -> exists m', reachable m' s.
+Proof. exact reachable_r_reachable. Qed.
+
+(* in particular: in every life, Shutdown returned nil ==> every handler that
+   was started in that life has returned *)
+Theorem shutdown_returns_after_handlers_in_every_life :
+  forall (m : mode) (s : state) (j : nat),
+    reachable_r m s -> In (j, SdDone ResNil) (sds s) ->
+    Forall (fun w => w_pc w = CDone) (workers s) /\ wg s = 0 /\
+    (exists v, serve s = SClosing v \/ serve s = SReturned v).
+Proof. exact returns_after_handlers_r. Qed.
+
+(* a history of lives only visits such states *)
+Theorem lives_reachable :
+  forall (m : mode) (lives : list (list label)) (s s' : state),
+    reachable_r m s -> run_lives s lives = Some s' -> reachable_r m s'.
+Proof. exact run_lives_reachable_r. Qed.
+
+(* in a later life no handler is entered after a Shutdown call of that life returned nil *)
+Theorem no_handler_after_shutdown_return_in_later_life :
+  forall (m : mode) (lives : list (list label)) (ls1 : list label) (j : nat) (ls2 : list label)
+         (s s' : state) (c : nat),
+    run_lives (init m) lives = Some s -> epoch_over s = true ->
+    run (restart s) (ls1 ++ SdReturn j ResNil :: ls2) = Some s' -> ~ In (HEnter c) ls2.
+Proof. exact no_handler_after_return_lives. Qed.
+
+(* after a restart a start call succeeds at once and the new life starts empty *)
+Theorem restart_is_startable :
+  forall (s : state) (i : nat),
+    exists s1 s2, step (restart s) (StInvoke i) = Some s1 /\ step s1 (StAtomic i) = Some s2 /\
+                  ph s2 = Running /\ serve s2 = SInit /\ workers s2 = [] /\ wg s2 = 0 /\ shut s2 = false /\
+                  sds s2 = [] /\ lclosed s2 = false /\ pcdl s2 = false.
+Proof. exact restart_startable. Qed.
